@@ -1141,6 +1141,9 @@ class Shadow(Family):
             Doc('sh-valid-b', _decl() + '<root><code>x</code><box><code>2020-01-01</code></box><box><code>2021-12-31</code><code>2000-02-29</code></box></root>'),
             Doc('sh-bad-box', _decl() + '<root><code>x</code><box><code>12</code></box></root>', 'fault:lexical'),
             Doc('sh-bad-extra', _decl() + '<root><code>x</code><bogus/></root>', 'fault:structure'),
+            # depth-1 children that decode to None between others (one result per lazy placeholder)
+            Doc('sh-valid-empties', _decl() + '<root><code>A</code><code/><code>B</code><code></code><box><code>2020-01-01</code></box>'
+                '<crate><code/></crate></root>'),
             # the same tag at the same depth under another parent: a path of child steps must not select it
             Doc('sh-valid-crate', _decl() + '<root><code>x</code><box><code>2020-01-01</code></box><crate><code>not a date</code>'
                 '<code>12</code></crate><crate><code>z</code></crate></root>'),
@@ -1531,6 +1534,45 @@ class LaxBuilt(Family):
         ]
 
 
+# ---------------------------------------------------------------------------
+class DeepKey(Family):
+    """A root-level key whose selector reaches descendants below the lazy depth and whose field is a
+    child element that is NOT the first child: what the selector sees depends on how much of a
+    later subtree the parser has already built when an earlier one is validated."""
+    name = 'deepkey'
+    paths = ('item',)
+
+    def sources(self, version):
+        return {'deepkey.xsd': f"""<xs:schema {XS}>
+ <xs:element name="root"><xs:complexType><xs:sequence>
+   <xs:element name="item" maxOccurs="unbounded"><xs:complexType><xs:sequence>
+     <xs:element name="entry" maxOccurs="unbounded"><xs:complexType><xs:sequence>
+       <xs:element name="pad" type="xs:string"/><xs:element name="name" type="xs:string"/>
+       <xs:element name="ref" type="xs:string" minOccurs="0"/>
+     </xs:sequence></xs:complexType></xs:element>
+   </xs:sequence></xs:complexType></xs:element>
+  </xs:sequence></xs:complexType>
+  <xs:key name="k"><xs:selector xpath=".//entry"/><xs:field xpath="name"/></xs:key>
+  <xs:keyref name="kr" refer="k"><xs:selector xpath="item/entry"/><xs:field xpath="ref"/></xs:keyref>
+ </xs:element>
+</xs:schema>"""}
+
+    def _doc(self, names, pad=10, refs=None):
+        refs = refs or {}
+        body = ''.join(f'<item><entry><pad>{"x" * pad}</pad><name>{n}</name>'
+                       + (f'<ref>{refs[i]}</ref>' if i in refs else '') + '</entry></item>' for i, n in enumerate(names))
+        return _decl() + '<root>' + body + '</root>\n'
+
+    def docs(self, rng):
+        return [
+            Doc('dk-valid-6', self._doc([f'n{i}' for i in range(6)])),
+            Doc('dk-valid-40', self._doc([f'n{i}' for i in range(40)], pad=3, refs={5: 'n30', 39: 'n0'})),
+            Doc('dk-valid-pad', self._doc([f'n{i}' for i in range(4)], pad=120)),
+            Doc('dk-dup', self._doc(['a', 'b', 'c', 'b', 'd']), 'fault:dup-key'),
+            Doc('dk-dangling', self._doc(['a', 'b', 'c'], refs={1: 'zz'}), 'fault:keyref'),
+        ]
+
+
 def double_fault(doc, rng, order='model-first'):
     """A model violation (unexpected child of the root) and a content error in another sibling, in either
     document order. Works on the one-root-child-per-line layout of the generated documents."""
@@ -1563,4 +1605,4 @@ def with_double_faults(docs, rng, n=4):
 
 
 FAMILIES = {f.name: f for f in (Ids(), Keys(), XsiType(), Subst(), Fixed(), Wild(), Ns(), Mixed(),
-                                Assert11(), Recur(), Multi(), Multi2(), Shadow(), IdFields(), Dtd(), Chameleon(), Big(), OnDemand(), Simple(), Grouped(), LaxBuilt())}
+                                Assert11(), Recur(), Multi(), Multi2(), Shadow(), IdFields(), Dtd(), Chameleon(), Big(), OnDemand(), Simple(), Grouped(), LaxBuilt(), DeepKey())}
